@@ -1,12 +1,13 @@
 import RTA.Lemmas.CurveN
 /-! `Curve::steps_iter` enumerates exactly the increase points of `Curve::number_arrivals`
-— except for delta-min vectors that end in a plateau (finding F3). (C11) -/
+for every well-formed delta-min vector — also for vectors that end in a plateau (finding F3,
+fixed in `number_arrivals`: the remainder now ranges over `1 ..= last`). (C11) -/
 
 namespace RTA
 
-/-- the delta-min vectors for which `steps_iter` is exact: the largest distance is 1, or
-`last - 1` occurs in the vector, or the largest distance occurs only once (no plateau at
-the end). -/
+/-- "no plateau at the end": the largest distance is 1, or `last - 1` occurs in the vector,
+or the largest distance occurs only once.  Before the F3 fix `steps_iter` was exact only for
+these vectors; `curve_steps_spec` no longer needs the hypothesis (kept for reference). -/
 def curveExact (d : List Nat) : Prop :=
   d.getLastD 0 = 1 ∨ (d.getLastD 0 - 1) ∈ d ∨ d.count (d.getLastD 0) = 1
 
@@ -303,57 +304,33 @@ theorem increase_rhs_iff (L : Nat) (hL : 0 < L) (P : Nat → Prop) (δ : Nat) (h
     rw [Nat.mul_comm]; omega
 
 theorem curveN_increase_aux (d : List Nat) (hwf : curveWF d) (L : Nat) (hLd : d.getLastD 0 = L)
-    (hex : L = 1 ∨ (L - 1) ∈ d ∨ d.count L = 1) (q v : Nat) (hr : v < L) :
+    (q v : Nat) (hr : v < L) :
     curveN d (q * L + v) < curveN d (q * L + v + 1) ↔ (v = 0 ∨ v ∈ d) := by
   have hL : 1 ≤ L := hLd ▸ hwf.2.2
-  have hclosed : ∀ c t, t < L →
-      curveN d (c * L + t) = c * d.length + (if t = 0 then 0 else 1 + countLt d t) := by
-    intro c t ht
-    have := curveN_closed d hwf c t (by rw [hLd]; exact ht)
+  have hclosed : ∀ c t, 1 ≤ t → t ≤ L →
+      curveN d (c * L + t) = c * d.length + (1 + countLt d t) := by
+    intro c t ht1 ht
+    have := curveN_closed d hwf c t ht1 (by rw [hLd]; exact ht)
     rw [hLd] at this
     exact this
-  have hN1 := hclosed q v hr
-  by_cases hlt : v + 1 < L
-  · have hN2 := hclosed q (v + 1) hlt
-    rw [Nat.add_assoc, hN1, hN2, if_neg (Nat.succ_ne_zero v), countLt_succ]
-    by_cases hv0 : v = 0
-    · simp [hv0]; omega
-    · rw [if_neg hv0]
-      have := List.count_pos_iff (a := v) (l := d)
-      simp only [hv0, false_or]
-      rw [← this]
+  have hN2 := hclosed q (v + 1) (by omega) (by omega)
+  rw [Nat.add_assoc, hN2, countLt_succ]
+  by_cases hv0 : v = 0
+  · subst hv0
+    simp only [Nat.add_zero, true_or, iff_true]
+    cases q with
+    | zero => rw [Nat.zero_mul, curveN_zero]; omega
+    | succ q =>
+      have e : (q + 1) * L = q * L + L := Nat.succ_mul q L
+      have hlt : countLt d L < d.length :=
+        countLt_lt_length d hwf.1 L (by rw [hLd]; exact Nat.le_refl _)
+      rw [e, hclosed q L hL (Nat.le_refl _), Nat.succ_mul]
       omega
-  · have hN2 := hclosed (q + 1) 0 hL
-    have e2 : q * L + v + 1 = (q + 1) * L + 0 := by rw [Nat.succ_mul]; omega
-    rw [e2, hN1, hN2, if_pos rfl, Nat.succ_mul]
-    have hlen : 0 < d.length := List.length_pos_iff.2 hwf.1
-    by_cases hv0 : v = 0
-    · simp [hv0]; omega
-    · rw [if_neg hv0]
-      have hall : countLt d (L + 1) = d.length := countLt_all d _ (fun w hw => by
-        have := sorted_le_getLastD d 0 hwf.2.1 w hw
-        omega)
-      have hLv : L = v + 1 := by omega
-      rw [countLt_succ] at hall
-      have h2 := countLt_succ d v
-      rw [← hLv] at h2
-      have hc1 : 0 < d.count L := List.count_pos_iff.2 (hLd ▸ getLastD_mem d hwf.1 0)
-      have hcv := List.count_pos_iff (a := v) (l := d)
-      have hv1 : L - 1 = v := by omega
-      rw [hv1] at hex
-      simp only [hv0, false_or]
-      rcases hex with h | h | h
-      · omega
-      · have := hcv.2 h
-        simp only [h, iff_true]
-        omega
-      · constructor
-        · intro hlt'
-          apply hcv.1
-          omega
-        · intro hm
-          have := hcv.2 hm
-          omega
+  · rw [hclosed q v (by omega) (by omega)]
+    have := List.count_pos_iff (a := v) (l := d)
+    simp only [hv0, false_or]
+    rw [← this]
+    omega
 
 end CurveSteps
 
@@ -428,9 +405,8 @@ theorem curveSteps_strict (d : List Nat) (hwf : curveWF d) (H : Nat) :
   rw [curveSteps_eq]
   exact curveStepsAux_strict _ hpos.1 hpos.2 H _ _
 
-/-- the increase points of `curveN`: `δ = 1 + c*last + v` with `v = 0` or `v ∈ d`, `v < last`
-— and additionally `δ = c*last` (`c ≥ 1`) when at least two entries are `≥ last - 1` -/
-theorem curveN_increase_iff (d : List Nat) (hwf : curveWF d) (hex : curveExact d) (δ : Nat)
+/-- the increase points of `curveN`: `δ = 1 + c*last + v` with `v = 0` or `v ∈ d`, `v < last` -/
+theorem curveN_increase_iff (d : List Nat) (hwf : curveWF d) (δ : Nat)
     (hδ : 1 ≤ δ) :
     curveN d (δ - 1) < curveN d δ ↔
       ∃ c v, δ = 1 + c * d.getLastD 0 + v ∧ v < d.getLastD 0 ∧ (v = 0 ∨ v ∈ d) := by
@@ -438,31 +414,28 @@ theorem curveN_increase_iff (d : List Nat) (hwf : curveWF d) (hex : curveExact d
   rw [increase_rhs_iff (d.getLastD 0) hL (fun v => v = 0 ∨ v ∈ d) δ hδ]
   have hdm := Nat.div_add_mod (δ - 1) (d.getLastD 0)
   have hr := Nat.mod_lt (δ - 1) hL
-  have := curveN_increase_aux d hwf _ rfl hex ((δ - 1) / d.getLastD 0) ((δ - 1) % d.getLastD 0) hr
+  have := curveN_increase_aux d hwf _ rfl ((δ - 1) / d.getLastD 0) ((δ - 1) % d.getLastD 0) hr
   have e1 : (δ - 1) / d.getLastD 0 * d.getLastD 0 + (δ - 1) % d.getLastD 0 = δ - 1 := by
     rw [Nat.mul_comm]; exact hdm
   rw [e1, Nat.sub_add_cancel hδ] at this
   exact this
 
-/-- C11 for `Curve` -/
-theorem curve_steps_spec (d : List Nat) (hwf : curveWF d) (hex : curveExact d) (H : Nat) :
+/-- C11 for `Curve`: exact for every well-formed delta-min vector -/
+theorem curve_steps_spec (d : List Nat) (hwf : curveWF d) (H : Nat) :
     StepsSpec (curveN d) H (curveSteps d H) := by
   refine ⟨curveSteps_strict d hwf H, fun δ => ?_⟩
   rw [mem_curveSteps d hwf H δ]
   constructor
   · rintro ⟨hH, c, v, hx, hv⟩
     have h1 : 1 ≤ δ := by omega
-    exact ⟨h1, hH, (curveN_increase_iff d hwf hex δ h1).2 ⟨c, v, hx, hv⟩⟩
+    exact ⟨h1, hH, (curveN_increase_iff d hwf δ h1).2 ⟨c, v, hx, hv⟩⟩
   · rintro ⟨h1, hH, hinc⟩
-    exact ⟨hH, (curveN_increase_iff d hwf hex δ h1).1 hinc⟩
+    exact ⟨hH, (curveN_increase_iff d hwf δ h1).1 hinc⟩
 
-/-- finding F3: a plateau at the end of the delta-min vector makes `steps_iter` miss the
-increase at `δ = last` -/
-theorem curve_steps_plateau_counterexample :
-    ¬ StepsSpec (curveN [5, 10, 10]) 20 (curveSteps [5, 10, 10] 20) := by
-  intro h
-  have := (h.2 10).2 ⟨by decide, by decide, by decide⟩
-  revert this
-  decide
+/-- finding F3 (fixed): a plateau at the end of the delta-min vector no longer makes
+`steps_iter` miss the increase after `δ = last` -/
+theorem curve_steps_plateau_exact :
+    StepsSpec (curveN [5, 10, 10]) 20 (curveSteps [5, 10, 10] 20) :=
+  curve_steps_spec [5, 10, 10] (by decide) 20
 
 end RTA
